@@ -975,6 +975,9 @@ func (is *indexSearch) searchTSIDsByBinaryExpr(name []byte, n *influxql.BinaryEx
 		if err != nil {
 			return nil, err
 		}
+	case *influxql.SetLiteral:
+		// tag IN (...) / tag NOT IN (...)
+		return is.tsidsBySetLiteral(name, []byte(key.Val), value.Vals, n.Op == influxql.IN)
 	default:
 		return is.searchTSIDsByTimeRange(name)
 	}
@@ -1093,20 +1096,32 @@ func (is *indexSearch) seriesByBinaryExpr(name []byte, n *influxql.BinaryExpr, t
 
 // todo: vals parallel processing
 func (is *indexSearch) seriesByBinaryExprSetLiteral(name, key []byte, vals map[interface{}]bool, equal bool) (index.SeriesIDSetIterator, error) {
-	var result *uint64set.Set
+	result, err := is.tsidsBySetLiteral(name, key, vals, equal)
+	if err != nil {
+		return nil, err
+	}
+	return index.NewSeriesIDSetIterator(index.NewSeriesIDSetWithSet(result)), nil
+}
+
+// tsidsBySetLiteral returns the series of the measurement whose tag key is one of vals (equal) or none of them (!equal).
+// The result is never nil: searchTSIDsInternal reads a nil operand of AND / OR as "no constraint".
+func (is *indexSearch) tsidsBySetLiteral(name, key []byte, vals map[interface{}]bool, equal bool) (*uint64set.Set, error) {
+	result := &uint64set.Set{}
 	tf := new(tagFilter)
 	for val := range vals {
-		if err := tf.Init(name, key, []byte(val.(string)), false, false); err != nil {
+		s, ok := val.(string)
+		if !ok {
+			// a tag value is a string; a numeric member of the set equals no tag value
+			continue
+		}
+		if err := tf.Init(name, key, []byte(s), false, false); err != nil {
 			return nil, err
 		}
 		set, _, err := is.searchTSIDsByTagFilterAndDateRange(tf)
 		if err != nil {
 			return nil, err
 		}
-		if result != nil {
-			set.Union(result)
-		}
-		result = set
+		result.Union(set)
 	}
 
 	if !equal {
@@ -1114,12 +1129,10 @@ func (is *indexSearch) seriesByBinaryExprSetLiteral(name, key []byte, vals map[i
 		if err != nil {
 			return nil, err
 		}
-		if result != nil {
-			tsids.Subtract(result)
-		}
+		tsids.Subtract(result)
 		result = tsids
 	}
-	return index.NewSeriesIDSetIterator(index.NewSeriesIDSetWithSet(result)), nil
+	return result, nil
 }
 
 func (is *indexSearch) seriesByBinaryExprVarRef(name, key, val []byte, equal bool) (index.SeriesIDSetIterator, error) {
